@@ -325,6 +325,91 @@ def decimal_sum_game(rng):
     return finish(rewards, players, xtl, [win], {"family": "decimal_sum"})
 
 
+def big_dead_corridor(n=2100, rng=None):
+    """a long corridor solved in ONE sweep (state i leads to i-1, state 1 to the winning state), every
+    state with an extra branch into the dead sink: Player-1 states (a 'bad' action) and probabilistic
+    states (probability 2^-12) alternate; indices 1000, 2000, ... are ordinary corridor states"""
+    import random as _r
+    rng = rng or _r.Random(n)
+    m = n - 2
+    lose, win = n - 2, n - 1
+    players, xtl, rewards = [], [], []
+    for i in range(m):
+        nxt = (m - 1) if i == 0 else (i - 1 if i > 1 else win)
+        if i == 0:
+            players.append(PR)
+            rewards.append(0)
+            xtl.append([(Fr(1), nxt)])
+        elif i % 2 == 0:
+            players.append(P1)
+            rewards.append(i % 3)
+            row = [("go", nxt), ("bad", lose)]
+            if i % 4 == 0:
+                row.reverse()
+            xtl.append(row)
+        else:
+            players.append(PR)
+            rewards.append(0)
+            xtl.append([(1 - Fr(1, 2 ** 12), nxt), (Fr(1, 2 ** 12), lose)] if i % 3 else
+                       [(Fr(1, 2 ** 12), lose), (1 - Fr(1, 2 ** 12), nxt)])
+    players += [PR, PR]
+    rewards += [0, 0]
+    xtl += [[(Fr(1), lose)], [(Fr(1), win)]]
+    return finish(rewards, players, xtl, [win], {"family": "big_dead_corridor", "n": n})
+
+
+def cascade_game(k=1050):
+    """pruning cascade: Player 1 at state 0 prefers 'a' (straight to the goal) to 'b' (into a chain of k
+    probabilistic states that ends in the dead sink); after conditioning the chain head has no
+    predecessor, and clearing it orphans the next state, and so on: k rounds of prune_states"""
+    lose, win = k + 1, k + 2
+    players = [P1] + [PR] * k + [PR, PR]
+    rewards = [0] + [1] * k + [0, 0]
+    xtl = [[("a", win), ("b", 1)]] + [[(Fr(1), i + 1)] for i in range(1, k)] + [[(Fr(1), lose)]] + \
+        [[(Fr(1), lose)], [(Fr(1), win)]]
+    return finish(rewards, players, xtl, [win], {"family": "cascade", "k": k})
+
+
+def tiny_dead_mass_game(rng):
+    """a probabilistic state whose DEAD successors carry a probability so small that 1 - p rounds to 1
+    (2^-60, 1e-17): they must be removed all the same"""
+    q = rng.choice([Fr(1, 2 ** 60), Fr(1, 10 ** 17), Fr(1, 2 ** 80)])
+    front = rng.choice([None, P1, P2])
+    players, xtl, rewards = [], [], []
+    base = 0
+    if front:
+        players.append(front)
+        rewards.append(0)
+        xtl.append([("go", 1)])
+        base = 1
+    S, live, dead, lose, win = base, base + 1, base + 2, base + 3, base + 4
+    row = [(q, dead), (Fr(1), live)]
+    if rng.random() < 0.5:
+        row.reverse()
+    players += [PR, PR, PR, PR, PR]
+    rewards += [1, 2, 7, 0, 0]
+    xtl += [row, [(Fr(1, 2), win), (Fr(1, 2), lose)], [(Fr(1), lose)], [(Fr(1), lose)], [(Fr(1), win)]]
+    g = finish(rewards, players, xtl, [win], {"family": "tiny_dead_mass"})
+    # the float description: probability 1.0 for the live branch (1 - q rounds to 1)
+    return g
+
+
+def descending_ladder_game(k=20, p=Fr(1, 10 ** 9), q=Fr(1, 10 ** 150)):
+    """reach probabilities far below the smallest normal double: a ladder of k events of probability p
+    numbered DOWNWARDS (one sweep propagates everything), entered from state 0 through a branch of
+    probability q; every one of these states has a positive reachability value and must survive"""
+    # states: 0 = entry, 1..k = ladder (state i -> i-1 with prob p, state 1 -> win), k+1 = lose, k+2 = win
+    lose, win = k + 1, k + 2
+    players = [PR] * (k + 3)
+    rewards = [1] + [1] * k + [0, 0]
+    xtl = [[(q, k), (1 - q, win)]]
+    for i in range(1, k + 1):
+        nxt = win if i == 1 else i - 1
+        xtl.append([(p, nxt), (1 - p, lose)])
+    xtl += [[(Fr(1), lose)], [(Fr(1), win)]]
+    return finish(rewards, players, xtl, [win], {"family": "ladder", "k": k})
+
+
 def parallel_dead_game(rng):
     """a probabilistic state with two or more PARALLEL transitions into one and the same dead state
     (and into one live state), below a player state that has a competing action; conditioning must
@@ -505,7 +590,7 @@ def random_digraph(rng, n=None):
         row = []
         for _ in range(k):
             t = rng.randrange(n) if rng.random() < 0.8 else i   # self loops
-            row.append((rng.choice(["x", 0.5, "y"]), t))
+            row.append((rng.choice(["x", 0.5, "y", 0, 0.0, "", 1]), t))
         if row and rng.random() < 0.2:
             row.append(row[0])                                   # parallel edge
         tl.append(row)
